@@ -187,9 +187,9 @@ func genTransport(g *GenCtx, emit func(head string, gos [][]string)) {
 	// fixed shapes: the mechanisms named by the property
 	emit("obj=t", [][]string{{"s.acc", "h.rm", "h.rm", "h.rm", "h.rm"}, {"c.hs", "c.wm:1001", "c.wm:1002", "c.wm:1003", "c.c"}, {"sl:300", "s.c"}})
 	emit("obj=t", [][]string{{"s.acc", "h.wm:1", "h.wm:2", "h.c", "h.c"}, {"c.hs", "sl:100", "c.c", "c.rm", "c.rm", "c.rm"}, {"sl:400", "s.c"}}) // buffered data after close
-	emit("obj=t", [][]string{{"c.hs"}, {"c.hs"}, {"c.hs"}, {"c.c"}, {"s.acc"}, {"sl:300", "s.c"}, {"sl:300", "c.c"}})                             // handshake elected once; close racing with it
-	emit("obj=t", [][]string{{"c.c"}, {"c.c"}, {"c.c"}, {"c.hs"}, {"s.c"}, {"s.c"}, {"s.acc"}})                                                   // concurrent closes before anything
-	emit("obj=t", [][]string{{"c.rm"}, {"c.r"}, {"s.acc", "h.rm"}, {"sl:200", "c.c"}, {"sl:250", "s.c"}})                                         // close releases blocked reads
+	emit("obj=t", [][]string{{"c.hs"}, {"c.hs"}, {"c.hs"}, {"c.c"}, {"s.acc"}, {"sl:300", "s.c"}, {"sl:300", "c.c"}})                            // handshake elected once; close racing with it
+	emit("obj=t", [][]string{{"c.c"}, {"c.c"}, {"c.c"}, {"c.hs"}, {"s.c"}, {"s.c"}, {"s.acc"}})                                                  // concurrent closes before anything
+	emit("obj=t", [][]string{{"c.rm"}, {"c.r"}, {"s.acc", "h.rm"}, {"sl:200", "c.c"}, {"sl:250", "s.c"}})                                        // close releases blocked reads
 	emit("obj=t", [][]string{{"c.hs", "c.ds", "c.rm", "c.dz"}, {"s.acc", "h.ds", "h.rm", "h.dp", "h.rm"}, {"sl:300", "c.c"}, {"sl:300", "s.c"}}) // deadlines release blocked reads
 	emit("obj=t", [][]string{{"s.c"}, {"c.hs"}, {"sl:3500", "c.c"}})                                                                             // dead server: handshake timeout
 	// a handshake that fails (dead server, short handshake timeout) while Close / Read / Handshake run
